@@ -39,7 +39,7 @@ package vgirpc
 //@   at call unpackTokenPayload assert [authfirst] authenticated && arg0 == sealed
 //@   at call (*gob.Decoder).Decode assert [decodeafter] authenticated && arg1 == out
 //@   establishes result == nil ==> tokenOpened(token, version, aad)
-//@   ensures [local_uniform_ret5] typeof(result) == *RpcError && as(result, "*RpcError").Type == "RuntimeError" && as(result, "*RpcError").Message == "State token signature verification failed"
+//@   ensures [local_uniform_ret6] typeof(result) == *RpcError && as(result, "*RpcError").Type == "RuntimeError" && as(result, "*RpcError").Message == "State token signature verification failed"
 
 // the cursor is opened under the cursor version and the AAD of the presenting identity
 //
@@ -84,3 +84,19 @@ package vgirpc
 //@       (forall i int :: 0 <= i && i < 24 ==> raw[1 + i] == nonce[i]) &&
 //@       (forall i int :: 0 <= i && i < len(ciphertext) ==> raw[25 + i] == ciphertext[i])
 //@   at call (*base64.Encoding).Encode assert [encodedwhole] arg1 == encoded
+
+// openToken accepts only the canonical encoding of a token: the text is refused when it holds a
+// CR or LF, and what is left is decoded by the STRICT standard decoder (no stray bits in the
+// final symbol), so re-encodings of a valid token that the lenient decoder would map to the same
+// bytes are client errors like every other alteration (repaired defect).
+//
+//@ func (*HttpServer).openToken
+//@   property C12
+//@   pathflag crlfChecked
+//@   pathflag crlfFree
+//@   pathflag strict
+//@   at call bytes.ContainsAny assert [wholetoken] arg0 == token && arg1 == "\r\n"
+//@   at call bytes.ContainsAny mark crlfChecked
+//@   at call bytes.ContainsAny setflag crlfFree !result
+//@   at call (base64.Encoding).Strict mark strict
+//@   at call (*base64.Encoding).DecodeString assert [canonicalonly] crlfChecked && crlfFree && strict && arg1 == str(token)
